@@ -203,7 +203,7 @@ def run_cases(prop_id: str, name: str, header: str, cases, check_fn: str, case_t
             raise CoqError(f'cannot parse output of {f.name}', out)
         body = m.group(1).strip()
         if body:
-            failing.extend(k + int(x) for x in body.replace('\n', ' ').split(';'))
+            failing.extend(k + int(x.strip().split('%')[0]) for x in body.replace('\n', ' ').split(';'))
 
     pending = list(files)
     running = []
